@@ -91,6 +91,16 @@ Theorem C17_overlapping_poll_send_refused :
   forall o buf d s, s_writing s = Some d -> poll_send o buf s = (Ready (Panic 41), s, buf, o).
 Proof. exact poll_send_refused. Qed.
 
+(* dropping the stream (what h3 does with every finished request/response stream) withdraws nothing: the bytes
+   handed to Quinn stay, no reset is issued, a finished stream is left exactly as it is; an unfinished, unreset
+   one is implicitly finished by Quinn.  (That h3-quinn adds no Drop of its own is a translator fact: item inventory.) *)
+Theorem C17_drop_keeps_handed_bytes :
+  forall s,
+    qs_log (send_drop s) = qs_log (s_q s) /\ qs_reset (send_drop s) = qs_reset (s_q s) /\ qs_id (send_drop s) = qs_id (s_q s) /\
+    qs_finished (send_drop s) = (qs_finished (s_q s) || negb (match qs_reset (s_q s) with Some _ => true | None => false end)) /\
+    (qs_finished (s_q s) = true -> send_drop s = s_q s).
+Proof. exact send_drop_keeps. Qed.
+
 (* an overlapping send_data is refused (InternalError) and changes nothing: no interleaving *)
 Theorem C17_overlapping_send_refused :
   forall b d s, s_writing s = Some d -> send_data b s = (Err (HConnErr HInternalError), s).
@@ -262,6 +272,7 @@ Print Assumptions C17_write_complete_partial.
 Print Assumptions C17_poll_ready_any_split_partial.
 Print Assumptions C17_write_progress_partial.
 Print Assumptions C17_poll_send_exact_partial.
+Print Assumptions C17_drop_keeps_handed_bytes.
 Print Assumptions C17_overlapping_send_refused.
 Print Assumptions C17_send_id_constant.
 Print Assumptions C17_recv_program_partial.
